@@ -30,6 +30,17 @@ def digests_in_fresh_interpreter(cases, hashseed):
     return json.loads(r.stdout)
 
 def run(ctx):
+    if ctx.replay:
+        case = json.load(open(ctx.replay)).get('case') or {}
+        if 'scenario' in case:          # a failing network program: re-execute it (the split ones alone, the others with the whole family)
+            from harness import netscen
+            res = {'coverage': {'evaluations': 1, 'distinct_nontrivial': 1, 'rule': 'replay of a network program', 'samples': [case]},
+                   'disagreements': [], 'oracle_failures': []}
+            if 'plan' in case:
+                f = netscen.split_one(case['scenario'].split('-')[0], case['scenario'].split('-')[1], case['flows'], case['seed'], case['plan'], case['attach'])
+                res['oracle_failures'] += [f] if f else []
+                return res
+            return net_part(ctx, res, [0, 4242])
     res = kprops.run_kernel(ctx, 'C03', SPEC, 1200, 30000, oracles=[kprops.oracle_split, koracle.oracle_until_event_return], attribute=kprops.split_is_the_cause)
     # reproducibility: same program, same and other interpreter processes, several hash seeds
     rng = random.Random(f'C03-hash-{ctx.seed}')
@@ -51,6 +62,12 @@ def run(ctx):
         if a != b:
             res['oracle_failures'].append({'what': 'two executions of the same program in one interpreter differ',
                                            'signature': 'not-reproducible', 'case': c.to_json()})
+    res['coverage']['reproducibility_runs'] = 2 * len(cases) + nfresh
+    res['coverage']['hash_seeds'] = seeds
+    return net_part(ctx, res, seeds)
+
+
+def net_part(ctx, res, seeds):
     # network scenarios (schedulers, port, wire; int and string flow ids) under several hash seeds
     from harness import netscen
     base = netscen.all_digests(ctx.seed)
@@ -80,8 +97,10 @@ def run(ctx):
             if base[k] != other.get(k):
                 res['oracle_failures'].append({'what': f'network scenario {k}: the delivery trace under PYTHONHASHSEED={hs} differs from the in-process run',
                                                'signature': 'hashseed-dependence-net', 'case': {'scenario': k, 'seed': ctx.seed, 'hashseed': hs}})
+    # second half on network programs: the monitored scenarios driven by run(until=t)/step() pieces against the single run(until=T)
+    sf, scov = netscen.split_failures(ctx.seed)
+    res['oracle_failures'] += sf
+    res['coverage'].update(scov)
     res['coverage']['network_scenario_runs'] = nnet
-    res['coverage']['reproducibility_runs'] = 2 * len(cases) + nfresh
-    res['coverage']['hash_seeds'] = seeds
     res['coverage'].update(kbridge.coverage('C03'))
     return res
